@@ -142,6 +142,21 @@ func (t *Task) Label() string {
 // Clean means no injected fault, crash or natural conflict touched the task.
 func (t *Task) Clean() bool { return !t.Faulted && !t.Crashed && !t.Conflict && t.Panic == nil }
 
+// CleanButPodPatches: nothing went wrong in the task except, possibly, patches of pods (the canary
+// label being set or removed). The code under test only asks for a prompt retry then; everything
+// else a sync decides and does is independent of it.
+func (t *Task) CleanButPodPatches() bool {
+	if t.Crashed || t.Conflict || t.Panic != nil {
+		return false
+	}
+	for _, c := range t.Calls {
+		if c.Fault != "" && !(c.Kind == KPod && c.Verb == "patch") {
+			return false
+		}
+	}
+	return true
+}
+
 // Successful additionally demands a nil error.
 func (t *Task) Successful() bool { return t.Clean() && t.Err == nil }
 
@@ -474,6 +489,10 @@ func (s *Sim) grant(c *Call, fault string) {
 	s.Stats.Calls++
 	if len(s.inflight) > 1 {
 		s.Stats.Interleave = s.Stats.Interleave*1099511628211 ^ hash64(t.Ctrl, c.Desc())
+	}
+	if fault == "" && s.W.Cfg.PatchDenied && c.Kind == KPod && c.Verb == "patch" && t.Ctrl == CtrlERS {
+		fault = "reject"
+		c.Fault = fault
 	}
 	for _, m := range s.Monitors {
 		m.PreCall(s, c)
